@@ -42,10 +42,39 @@ func checkC19(p *Prog, r *Report) {
 		c, i := extractOf(v)
 		return c != nil && i == idx && calleeName(c) == "net.SplitHostPort" && c.Common().Args[0] == remoteAddr
 	}
+	// the host, possibly with its IPv6 zone cut off: strings.Cut(host, "%") #0
+	isHost := func(v ssa.Value) bool {
+		if isSplit(v, 0) {
+			return true
+		}
+		c, i := extractOf(v)
+		if c != nil && i == 0 && calleeName(c) == "strings.Cut" {
+			if sep, ok := constStr(c.Common().Args[1]); ok && sep == "%" {
+				return isSplit(c.Common().Args[0], 0)
+			}
+		}
+		return false
+	}
 	isRemoteIP := func(v ssa.Value) bool {
 		c, ok := v.(*ssa.Call)
-		return ok && calleeName(c) == "net.ParseIP" && isSplit(c.Common().Args[0], 0)
+		return ok && calleeName(c) == "net.ParseIP" && isHost(c.Common().Args[0])
 	}
+	// C19/ZONE-STRIPPED (F29): Accept names a link-local IPv6 peer with its
+	// zone, net.ParseIP rejects zones
+	r.Rule("C19/ZONE-STRIPPED", "the peer host that checkACL hands to net.ParseIP has had an IPv6 zone removed (strings.Cut(host, \"%\") before the call): Accept reports link-local peers as [fe80::1%eth0]:port and ParseIP rejects a zone, so without this every non-empty ACL refuses such a client whatever its rules say", 1)
+	allCalls(fn, func(c ssa.CallInstruction) {
+		if calleeName(c) != "net.ParseIP" {
+			return
+		}
+		cc, i := extractOf(c.Common().Args[0])
+		stripped := false
+		if cc != nil && i == 0 && calleeName(cc) == "strings.Cut" {
+			if sep, ok := constStr(cc.Common().Args[1]); ok && sep == "%" {
+				stripped = true
+			}
+		}
+		r.Cond(stripped, "C19/ZONE-STRIPPED", "checkACL → net.ParseIP(host)", p.Pos(instrPos(c)), "the host reaches net.ParseIP with a possible %zone: a link-local IPv6 client is refused (\"BUG: invalid remote host\") by every module with an ACL, also when the first matching rule says allow")
+	})
 	// range index: t21 = phi(-1, t21)+1 ; cond t21 < len(acls)
 	isRangeIdx := func(v ssa.Value) bool {
 		add, ok := v.(*ssa.BinOp)
